@@ -334,6 +334,29 @@ pub fn restrictions(net: &Net, tier: Tier) -> Vec<Restr> {
             out.push(Restr { vehicle_rows: rws, vehicle: Some(v.clone()), ..Default::default() });
         }
     }
+    // vehicles that exceed exactly one of the four length-type limits while all their other length-type parameters are smaller
+    // than every limit (a parameter read from the wrong key would let them through): each against each kind of row
+    let special = |which: usize| -> Value {
+        let v = |k: usize, big: f64| if k == which { big } else { 1.0 };
+        json!({
+            "height": [v(0, 4.2), "meters"],
+            "width": [v(1, 3.0), "meters"],
+            "total_length": [v(2, 20.0), "meters"],
+            "trailer_length": [v(3, 16.0), "meters"],
+            "total_weight": [1000.0, "kg"],
+            "number_of_axles": 2
+        })
+    };
+    let length_kinds = [0usize, 4, 3, 5]; // rows(): height, width, length, trailer length - in the order of `special`
+    for (ki, k) in length_kinds.iter().enumerate() {
+        for which in 0..4usize {
+            if tier == Tier::Quick && (ki + which + idx) % 4 != 0 {
+                continue;
+            }
+            let e = (ki + which + idx) % m;
+            out.push(Restr { vehicle_rows: vec![rows(e, *k)], vehicle: Some(special(which)), ..Default::default() });
+        }
+    }
     // several rows on the same edge: every pair of kinds (and one triple), so that a vehicle can exceed one limit of an edge
     // and meet another; the edge is forbidden as soon as one of its rows is exceeded
     let mut multi = 0usize;
